@@ -22,7 +22,7 @@ use rustc_middle::mir::{
     AggregateKind, BinOp, Body, BorrowKind, CastKind, Const, ConstValue, Operand, Place,
     ProjectionElem, Rvalue, StatementKind, TerminatorKind, UnOp, VarDebugInfoContents,
 };
-use rustc_middle::ty::print::{with_crate_prefix, with_no_trimmed_paths, PrintTraitRefExt};
+use rustc_middle::ty::print::{with_no_trimmed_paths, with_no_visible_paths, with_resolve_crate_name, PrintTraitRefExt};
 use rustc_middle::ty::{self, GenericArgsRef, Instance, Ty, TyCtxt, TypingEnv};
 use rustc_span::Span;
 use std::fmt::Write as _;
@@ -217,7 +217,7 @@ impl<'tcx> Cx<'tcx> {
             return J::Obj(o);
         }
         match c {
-            Const::Val(cv, _) => self.const_value(&mut o, *cv, ty),
+            Const::Val(cv, _) => self.const_value(&mut o, *cv, ty, false),
             Const::Unevaluated(uv, _) => {
                 o.push(("item", s(qpath(tcx, uv.def))));
                 o.push(("iargs", self.generic_args(uv.args)));
@@ -231,7 +231,7 @@ impl<'tcx> Cx<'tcx> {
                         tcx.const_eval_resolve(env, *uv, span)
                     }));
                     if let Ok(Ok(cv)) = r {
-                        self.const_value(&mut o, cv, ty);
+                        self.const_value(&mut o, cv, ty, false);
                     }
                 }
             }
@@ -247,8 +247,28 @@ impl<'tcx> Cx<'tcx> {
         J::Obj(o)
     }
 
-    fn const_value(&self, o: &mut Vec<(&'static str, J)>, cv: ConstValue, ty: Ty<'tcx>) {
+    fn const_value(&self, o: &mut Vec<(&'static str, J)>, cv: ConstValue, ty: Ty<'tcx>, deep: bool) {
         let tcx = self.tcx;
+        if !deep {
+            // in operand position only small values are decoded (big tables are in `consts`)
+            let small = match cv {
+                ConstValue::Scalar(Scalar::Int(_)) | ConstValue::ZeroSized | ConstValue::Slice { .. } => true,
+                ConstValue::Scalar(Scalar::Ptr(..)) => match ty.kind() {
+                    ty::Ref(_, inner, _) => tcx
+                        .layout_of(TypingEnv::fully_monomorphized().as_query_input(*inner))
+                        .map(|l| l.size.bytes() <= 256)
+                        .unwrap_or(false),
+                    _ => false,
+                },
+                ConstValue::Indirect { .. } => tcx
+                    .layout_of(TypingEnv::fully_monomorphized().as_query_input(ty))
+                    .map(|l| l.size.bytes() <= 256)
+                    .unwrap_or(false),
+            };
+            if !small {
+                return;
+            }
+        }
         match cv {
             ConstValue::Scalar(sc) => {
                 if let Some(j) = self.scalar_int(sc, ty) {
@@ -887,7 +907,7 @@ impl<'tcx> Cx<'tcx> {
                 tcx.const_eval_poly(did).ok()
             };
             if let Some(cv) = r {
-                self.const_value(&mut o, cv, ty);
+                self.const_value(&mut o, cv, ty, true);
             }
             out.push(J::Obj(o));
         }
@@ -939,7 +959,7 @@ impl Callbacks for Cb {
             return Compilation::Continue;
         }
         let cx = Cx { tcx };
-        let j = with_crate_prefix!(with_no_trimmed_paths!({
+        let j = with_resolve_crate_name!(with_no_visible_paths!(with_no_trimmed_paths!({
             let feats: Vec<J> = tcx
                 .sess
                 .opts
@@ -975,7 +995,7 @@ impl Callbacks for Cb {
                 ("consts", cx.consts()),
                 ("bodies", cx.bodies()),
             ])
-        }));
+        })));
         let mut out = String::new();
         j.write(&mut out);
         let pid = std::process::id();
